@@ -9,12 +9,13 @@ A fake discretisation (any object with rhs(field)) replaces the space operator, 
 """
 import cmath
 import math
+import zlib
 
 import numpy as np
 from hypothesis import strategies as st
 
 from vf import cases, gen, oracles, sim
-from vf.runner import Skip, SubCheck, Violation, require, target
+from vf.runner import Skip, SubCheck, canonical, Violation, require, target
 
 RULE = ("tableau/algebra: every explicit integrator class exported by flowdyn.integration (discovered at run time) x t0, dt over 6 decades x field size; programs: right-hand sides drawn from a "
         "grammar (A y; A y + B sin y; componentwise polynomials; g(t) A y; max/min filters) of dimension 1..8 with generated coefficients, 1 or 2 equations, scalar or per-component dt; "
@@ -255,6 +256,20 @@ def check_programs(case):
     if neq == 2 and np.ndim(dt) == 1:
         dt = np.concatenate([dtarg, dtarg])          # the same per-cell time step applies to every equation
     solver = make_solver(name, disc, n)
+    hist = zlib.crc32(canonical(case).encode()) % 3
+    if hist:
+        # the solver has stepped before, on other data and with another time step. hist == 2 and a per-component step: the caller keeps ONE time-step buffer
+        # and refills it in place between the calls (dt[:] = calc_timestep(...)), so the judged step receives the same array object with new contents
+        scratch = make_field([0.5 * np.asarray(x_, dtype=float) + 0.25 for x_ in field.data], t0 - 1.0, case.get("islinear", 0))
+        if np.ndim(dtarg) == 0:
+            solver.step(scratch, 1.75 * dtarg)
+        else:
+            buf = 1.75 * np.array(dtarg, dtype=float)
+            solver.step(scratch, buf)
+            if hist == 2:
+                buf[...] = dtarg
+                dtarg = buf
+        del disc.calls[:]
     solver.step(field, dtarg)
     got = np.concatenate([np.asarray(x, dtype=float) for x in field.data])
     A, b, c, s, _ = extract_tableau(name)
@@ -285,7 +300,8 @@ def check_programs(case):
     target(err, "program-error")
     nontrivial = case["kind"] != "linear" and any(float(np.max(np.abs(k))) > 0 for k in ks)
     return dict(nontrivial=nontrivial, labels=["integ:" + name, "kind:" + case["kind"], "neq:%d" % neq, "dt:" + ("scalar" if np.ndim(dt) == 0 else "vector"),
-                                                   "rhs-returns:" + (case.get("alloc", "fresh") if case["kind"] != "secondorder-view" else "view-of-field"), "model-flag-linear:%d" % case.get("islinear", 0)])
+                                                   "rhs-returns:" + (case.get("alloc", "fresh") if case["kind"] != "secondorder-view" else "view-of-field"), "model-flag-linear:%d" % case.get("islinear", 0),
+                                                   "solver-history:" + ["fresh", "stepped-before", "stepped-before-same-dt-buffer"][hist if (hist < 2 or np.ndim(dt) == 1) else 1]])
 
 
 # ---------------------------------------------------------------- real space operators
